@@ -645,6 +645,9 @@ func main() {
 		{"kinesisLoopSrc", []string{"KinesisLoopSrc.lean"}, genKinesisLoopSrc},
 		{"workerLoops", []string{"WorkerLoops.lean", "S3WorkerSrc.lean"}, genWorkerLoops},
 		{"parserSrc", []string{"ParserSrc.lean"}, genParserSrc},
+		{"marshalEntrySrc", []string{"MarshalEntrySrc.lean"}, genMarshalEntrySrc},
+		{"clientSrc", []string{"ClientSrc.lean"}, genClientSrc},
+		{"connSrc", []string{"ConnSrc.lean"}, genConnSrc},
 	}
 	status := map[string]interface{}{}
 	failed := 0
